@@ -61,6 +61,19 @@ def parse_pretty(text):
     return items, counter
 
 
+def line_boundary_stores():
+    """diagnostics on the lines where the printed line number gains a digit (9/10/11, 99/100/101, 999/1000/1001) and on the
+    first lines, in files with LF and with CRLF line ends (round 8: a gutter computed from the zero-based line; an excerpt
+    split at carriage returns): the excerpt must show THAT line, with the marker under the reported columns"""
+    out = []
+    for n in (1, 2, 3, 9, 10, 11, 99, 100, 101, 999, 1000, 1001):
+        for nl in ("\n", "\r\n"):
+            head = [] if n == 1 else ["main:"] + ["    # pad %d" % i for i in range(n - 2)]
+            lines = head + ["    li t0, 5", "  addi zero, a0, 1", "    li a7, 10", "    ecall"]
+            out.append((pipe.single(nl.join(lines) + nl), "a.s", "lineno"))
+    return out
+
+
 def run(ctx):
     proof_ok, can_run = common.prepare(ctx, "C18")
     ok_d, log_d, rva = build_rva(False)
@@ -85,6 +98,7 @@ def run(ctx):
     for t in ['main:\n\tli t0, 5    foo\n', ' li t9, 5\n li 　 t0 $\n', 'main:\n li t0, 5 # 　　\n addi zero, t0, 1 # é\n',
               "\t\t.word 1 '中\n", ' \t  main: frob\n', "main:\r\n\taddi zero, a0, 1\r\n\tfrob x\r\n", "main: addi zero, a0, 1", "\n\n\n   \t addi zero,a0,1   \t\n"]:
         stores.append((pipe.single(t), "a.s", "printer"))
+    stores += line_boundary_stores()
     # items from the library entry point
     runs = lib.run_impl(ctx, [lib.store_cmd("repeat 1", f, b) for f, b, _ in stores], limit_ms=6000, tag="items")
     work = os.path.join(ctx.rundir, "cli")
